@@ -86,6 +86,10 @@ def _kinds(v):
     arr = numpy.array([float(v), 2 * float(v), 0.5 * float(v)])
     out.append(("1d", arr, None))
     out.append(("series", pandas.Series(arr, index=[7, 3, 11]), None))
+    if float(v) == int(v) and abs(v) < 1e6:
+        # whole numbers in an integer-typed array / numpy integer scalar (a column read from a file of whole numbers)
+        out.append(("1d-int", numpy.array([int(v), 2 * int(v), 3 * int(v)], dtype=numpy.int64), None))
+        out.append(("np-int", numpy.int64(int(v)), lambda o: o))
     return out
 
 
@@ -109,7 +113,7 @@ def _check_values(ctx, fname, fn_call, factor, rtol, rep_from, rep_to, context):
     for v in VALUES:
         expected = v * factor
         for kind, obj, _ in _kinds(v):
-            keep = numpy.array(obj, dtype=float, copy=True) if kind in ("1d", "series", "0d") else None
+            keep = numpy.array(obj, dtype=float, copy=True) if kind in ("1d", "series", "0d", "1d-int") else None
             status, res = _call(fn_call, obj)
             ctx.evaluations += 1
             if same:
@@ -128,8 +132,8 @@ def _check_values(ctx, fname, fn_call, factor, rtol, rep_from, rep_to, context):
                               exc=res,
                               context=context)
                 return
-            if kind in ("1d", "series"):
-                exp_arr = numpy.array([v, 2 * v, 0.5 * v], dtype=float) * factor
+            if kind in ("1d", "series", "1d-int"):
+                exp_arr = (numpy.array([v, 2 * v, 0.5 * v], dtype=float) if kind != "1d-int" else numpy.array([v, 2 * v, 3 * v], dtype=float)) * factor
                 got = numpy.asarray(res, dtype=float)
                 if got.shape != exp_arr.shape or not all(
                     close(g, e, rtol, 0.0) for g, e in zip(got, exp_arr)
